@@ -258,6 +258,12 @@ func glueTyped(dir string) (*typedInfo, error) {
 			fmt.Fprintf(&sb, "func (s simSrc) %s%s %s {\n\tvar simRes %s\n\ts.fill(ctx, &simRes)\n\treturn simRes, nil\n}\n\n", m.name, m.params, m.results, strings.TrimSpace(inner[:i]))
 		}
 	}
+	// the per-call override of the server URL (a context value in the default configuration)
+	if b, err := os.ReadFile(filepath.Join(dir, "oas_client_gen.go")); err == nil && strings.Contains(string(b), "\nfunc WithServerURL(ctx context.Context, u *url.URL) context.Context {") {
+		sb.WriteString("// SimWithServerURL is the package's per-call override of the server URL.\nvar SimWithServerURL any = WithServerURL\n\n")
+	} else {
+		sb.WriteString("// SimWithServerURL: the package has no per-call override of the server URL through the context.\nvar SimWithServerURL any\n\n")
+	}
 	sb.WriteString("// SimWebhooks maps a webhook operation to the webhook it belongs to.\nvar SimWebhooks = map[string]string{")
 	if withWH {
 		var ks []string
